@@ -63,6 +63,57 @@ def run_step(step, heap):
         return specs.build_vector(a["spec"])
     if op == "copy":
         return x.copy()
+    if op == "factors":
+        # the factors themselves (not only gauge-invariant observables): the
+        # operand is synchronised in place first, so that every replica of a
+        # lock-step run decomposes bit-identical data and gets identical factors
+        if isinstance(x, sr.FermionicArray):
+            x.phase_sync(inplace=True)
+        which = a["which"]
+        if which == "qr":
+            return tuple(sr.linalg.qr(x, stabilized=bool(a.get("stabilized"))))
+        if which == "svd":
+            return tuple(sr.linalg.svd(x))
+        if which == "eigh":
+            return tuple(sr.linalg.eigh(x))
+        kw = {k: a[k] for k in ("cutoff", "cutoff_mode", "max_bond") if k in a}
+        kw["absorb"] = a.get("absorb")
+        return tuple(sr.linalg.svd_truncated(x, **kw))
+    if op == "index_ops":
+        # methods of the (shared, "immutable") index / label objects, called
+        # directly by the user; nothing is kept
+        out = 0
+        for ix in x.indices:
+            c = ix.conj()
+            out += int(c.dual != ix.dual)
+            cs = list(ix.chargemap)
+            if cs:
+                d = ix.drop_charges([cs[a.get("k", 0) % len(cs)]])
+                out += d.num_charges
+            ix.copy_with(dual=not ix.dual)
+            ix.hashkey()
+            str(ix), repr(ix)
+            ix.matches(c)
+            out += ix.size_total + ix.num_charges + len(list(ix.sizes)) + len(list(ix.charges))
+            if ix.subinfo is not None:
+                ix.subinfo.conj()
+                ix.subinfo.hashkey()
+                if cs:
+                    ix.subinfo.drop_charges([cs[0]])
+                repr(ix.subinfo)
+        if isinstance(x, sr.FermionicArray):
+            od = list(x.oddpos)
+            [o.dag for o in od]
+            sorted(od)
+            out += len(od) + int(x.parity)
+        _ = (x.shape, x.size, x.ndim, x.duals, x.charges, x.sizes, x.dtype, x.backend,
+             x.num_blocks, x.sectors, x.symmetry, x.charge)
+        return out
+    if op == "checks":
+        x.check()
+        if a.get("aligned"):
+            x.check_chargemaps_aligned()
+        return 1
     if op == "get_sparsity":
         return x.get_sparsity()
     if op == "filled_copy":
@@ -271,6 +322,8 @@ def run_step(step, heap):
     if op == "to_dense":
         return x.to_dense()
     if op == "allclose":
+        if "rtol" in a:
+            return bool(x.allclose(vals[1], rtol=a["rtol"], atol=a.get("atol", 1e-8)))
         return bool(x.allclose(vals[1]))
     # ---- linalg
     if op == "qr":
@@ -388,7 +441,7 @@ def is_inplace(step):
 INPLACE_OPS = {
     "iadd", "isub", "imul", "idiv", "ipow", "imul_s", "idiv_s", "iadd_s",
     "isub_s", "ipow_s", "fill_missing_blocks", "drop_missing_blocks",
-    "set_params", "apply_to_arrays",
+    "set_params", "apply_to_arrays", "factors",
 }
 
 # in-place step -> its out-of-place twin (same args)
@@ -639,6 +692,49 @@ def g_copy(ctx, heap):
     if n is None:
         return None
     return [{"op": "copy", "in": [n], "out": [ctx.fresh()], "a": {}}]
+
+
+def g_index_ops(ctx, heap):
+    n = _pick(ctx, heap, "AF", allow_bool=True)
+    if n is None:
+        return None
+    op = "index_ops" if ctx.rng.random() < 0.7 else "checks"
+    a = {"k": ctx.rng.randrange(4)} if op == "index_ops" else {"aligned": ctx.rng.random() < 0.3}
+    return [{"op": op, "in": [n], "out": [], "a": a}]
+
+
+def g_factors(ctx, heap):
+    """Decomposition factors placed on the heap (operand synchronised first)."""
+    rng = ctx.rng
+    which = rng.choice(["qr", "svd", "svd_truncated", "eigh"])
+    steps = []
+    if which == "eigh":
+        st = g_eigh(ctx, heap)
+        if not st:
+            return None
+        last = st[-1]
+        steps = st[:-1]
+        n = last["in"][0]
+        a = {"which": "eigh"}
+        outs = [ctx.fresh(), ctx.fresh()]
+    else:
+        n = _matrix(ctx, heap, steps)
+        a = {"which": which}
+        if which == "qr":
+            a["stabilized"] = rng.random() < 0.5
+            outs = [ctx.fresh(), ctx.fresh()]
+        elif which == "svd":
+            outs = [ctx.fresh(), ctx.fresh(), ctx.fresh()]
+        else:
+            if rng.random() < 0.5:
+                a["cutoff"] = rng.choice([1e-10, 0.05, 0.3])
+                a["cutoff_mode"] = rng.randint(1, 6)
+            if rng.random() < 0.6:
+                a["max_bond"] = rng.choice([1, 2, 3, 5])
+            a["absorb"] = rng.choice([-1, 0, 1, None])
+            outs = [ctx.fresh(), ctx.fresh(), ctx.fresh()]
+    steps.append({"op": "factors", "in": [n], "out": outs, "a": a})
+    return steps
 
 
 def g_sparsity(ctx, heap):
@@ -1345,7 +1441,8 @@ def g_allclose(ctx, heap):
     else:
         steps.append({"op": "new", "in": [], "out": [nb],
                       "a": {"spec": _same_shape_partner(ctx, x, False)}})
-    steps.append({"op": "allclose", "in": [n, nb], "out": [ctx.fresh()], "a": {}})
+    aa = {"rtol": 1e-3, "atol": 1e-6} if ctx.rng.random() < 0.3 else {}
+    steps.append({"op": "allclose", "in": [n, nb], "out": [ctx.fresh()], "a": aa})
     return steps
 
 
@@ -1474,7 +1571,7 @@ def g_solve(ctx, heap):
         return None
     if not sa["sectors"]:
         return None
-    sa["dist"] = "normal"
+    sa["dist"] = "normal" if rng.random() < 0.88 else "zero"   # zero: singular, numpy raises
     na = ctx.fresh()
     steps.append({"op": "new", "in": [], "out": [na], "a": {"spec": sa}})
     sb = ctx.new_spec(kind=kind, sym=sym, indices=[dict(ix)], static=sa["static"],
@@ -1529,6 +1626,8 @@ GENERATORS = {
     "copy": (g_copy, 2),
     "reassemble": (g_reassemble, 1),
     "sparsity": (g_sparsity, 1),
+    "index_ops": (g_index_ops, 1),
+    "factors": (g_factors, 0),
     "transpose": (g_transpose, 5),
     "conj": (g_conj, 3),
     "dagger": (g_dagger, 3),
